@@ -230,7 +230,7 @@ impl<
         &self,
         timestamp: Timestamp,
     ) -> Result<&shared::TzifLocalTimeType, &PosixTimeZone<ABBREV>> {
-        let timestamp = timestamp.as_second();
+        let timestamp = floor_second(timestamp);
         // This is guaranteed because we always push at least one transition.
         // This isn't guaranteed by TZif since it might have 0 transitions,
         // but we always add a "dummy" first transition with our minimum
@@ -389,7 +389,7 @@ impl<
         ts: Timestamp,
     ) -> Option<TimeZoneTransition> {
         assert!(!self.timestamps().is_empty(), "transitions is non-empty");
-        let mut timestamp = ts.as_second();
+        let mut timestamp = floor_second(ts);
         if ts.subsec_nanosecond() != 0 {
             timestamp = timestamp.saturating_add(1);
         }
@@ -443,7 +443,7 @@ impl<
         ts: Timestamp,
     ) -> Option<TimeZoneTransition> {
         assert!(!self.timestamps().is_empty(), "transitions is non-empty");
-        let timestamp = ts.as_second();
+        let timestamp = floor_second(ts);
         let search = self.timestamps().binary_search(&timestamp);
         let index = match search {
             Ok(i) => i.checked_add(1)?,
@@ -565,6 +565,22 @@ impl core::fmt::Display for shared::TzifIndicator {
             shared::TzifIndicator::LocalStandard => write!(f, "local/std"),
             shared::TzifIndicator::UTStandard => write!(f, "ut/std"),
         }
+    }
+}
+
+/// Returns the number of whole seconds since the Unix epoch for the given
+/// timestamp, rounding toward negative infinity.
+///
+/// This differs from `Timestamp::as_second` for timestamps before the Unix
+/// epoch with a non-zero fractional second: `as_second` rounds toward zero,
+/// which would make such an instant appear up to one second later than it is
+/// when comparing it with transition times (which are whole seconds).
+fn floor_second(timestamp: Timestamp) -> i64 {
+    let second = timestamp.as_second();
+    if timestamp.subsec_nanosecond() < 0 {
+        second - 1
+    } else {
+        second
     }
 }
 
